@@ -43,7 +43,7 @@ var initialisms = []string{"ACL", "API", "ASCII", "CPU", "CSS", "DNS", "EOF", "G
 	"URL", "UTF8", "VM", "XML", "XMPP", "XSRF", "XSS"}
 
 var pieces = []string{"", "a", "b", "ab", "abc", "A", "Ab", "aB", "foo", "Foo", "FOO", "bar", "_", "-", "/", ".", "..", " ", "\t", "\n",
-	"é", "É", "ß", "ǆ", "ñ", "Ω", "ω", "日本", "😀", "\xff", "\xc3", "a\x00b", "//", "a/b", "/a/b/", "a.b", "x_y", "x-y", "id", "Id", "http", "url",
+	"é", "É", "ß", "ǆ", "ñ", "ı", "ſ", "ɐ", "ⱥ", "İ", "Ω", "ω", "日本", "😀", "\xff", "\xc3", "a\x00b", "//", "a/b", "/a/b/", "a.b", "x_y", "x-y", "id", "Id", "http", "url",
 	"1", "9x", "%", "$", "${V1}", "$V2", "$$", "\\", "*", "+", "(", ")", "[", "a*", ".*", "^a", "b$", "[a-c]+", "aa", "aaa", "abab"}
 
 var concurrentBad int
@@ -51,7 +51,9 @@ var concurrentBad int
 func pick(xs []string) string { return xs[rng.Intn(len(xs))] }
 
 // every ASCII letter, digit and the underscore in turn as first character: boundary values of byte-range tests
-var firstChars = "abcdefghijklmnopqrstuvwxyzABCDEFGHIJKLMNOPQRSTUVWXYZ_0189"
+// (and letters whose other-case form has a different UTF-8 length: U+0131, U+017F, U+0250, U+2C65, U+0130, U+023A, U+212A - code that upper-cases a
+// whole string and then cuts it at the byte length of the original first letter goes wrong exactly on these)
+var firstChars = []rune("abcdefghijklmnopqrstuvwxyzABCDEFGHIJKLMNOPQRSTUVWXYZ_0189ıſɐⱥİȺKǆ")
 var firstCharNext int
 var foldNext int
 
